@@ -152,7 +152,9 @@ with texec_instr (fuel : nat) (s : store) (locals stack : list val) (i : ainstr)
           | _, _ => (ev_work o, RStuck)
           end
       | ABasic o b =>
-          (ev_work o ++ match b with BTick n => [EvTick n] | _ => [] end,
+          (* a tick is recorded BEFORE the work its annotation stands for (the entry tick of a
+             metered function carries the function's [invoke_after] work) *)
+          (match b with BTick n => EvTick n :: ev_work o | _ => ev_work o end,
            match exec_simple page_cap b s locals stack with
            | inr (s', l', st') => RNormal s' l' st'
            | inl true => RTrap
@@ -233,14 +235,15 @@ Definition annot_func (cfg : cost_cfg) (m : module) (f : func) : option afunc :=
 Definition annot_funcs (cfg : cost_cfg) (m : module) : option (list afunc) :=
   omap_list (annot_func cfg m) (m_funcs m).
 
-(** metered functions: the entry work is already covered by the entry tick; [af_entry] still
-    records it as work so that ticks and work can be compared on the metered trace alone *)
+(** metered functions: [af_entry] = 0, the [invoke_after] work is attributed to the entry tick of
+    the body (annotation [OSrc invoke_after 0] on that tick, see [Meter.ameter_body]).
+    NOTE (by design of the schedule, "invoke_after"): in the implementation the callee's frame is
+    allocated by the call instruction, i.e. before this tick executes. *)
 Definition ameter_func (cfg : cost_cfg) (m : module) (f : func) : option afunc :=
   match nth_error (m_types m) (f_type f) with
   | Some ft =>
       match ameter_body cfg (ctx_of_module m) (N.of_nat (length (f_locals f))) (ft_result ft) (f_body f) with
-      | Some b => Some {| af_type := f_type f; af_locals := f_locals f;
-                          af_entry := c_invoke_after cfg (N.of_nat (length (f_locals f))); af_body := b |}
+      | Some b => Some {| af_type := f_type f; af_locals := f_locals f; af_entry := 0%N; af_body := b |}
       | None => None
       end
   | None => None
@@ -260,6 +263,13 @@ Definition mhost (h : nat -> list val -> option memory -> host_result)
 (** ** Sums over a trace *)
 Fixpoint ticks (t : list event) : N :=
   match t with [] => 0%N | EvTick n :: r => (n + ticks r)%N | _ :: r => ticks r end.
+(** the non-zero work amounts, in order (what source and metered runs are aligned on) *)
+Fixpoint works (t : list event) : list N :=
+  match t with
+  | [] => []
+  | EvWork c :: r => if (0 <? c)%N then c :: works r else works r
+  | _ :: r => works r
+  end.
 Fixpoint work (t : list event) : N :=
   match t with [] => 0%N | EvWork c :: r => (c + work r)%N | _ :: r => work r end.
 (** the balance "paid minus consumed" never goes negative: [bal b t = Some b'] *)
